@@ -213,6 +213,16 @@ func genFacts() {
 	commit := kvs.fn("DB.Commit")
 	f["commitOrder"] = leanStrList(kvs.callOrder(commit, map[string]string{"s.crdt.MakeRoot": "flushNodes", "s.root.Store": "putRoot", "s.moveMergedRoots": "retireParents"}))
 	f["commitChecksErrors"] = leanBool(kvs.errCheckedAfter(commit.Body, "s.crdt.MakeRoot") && kvs.errCheckedAfter(commit.Body, "s.root.Store"))
+	{
+		ct := kvs.text(commit.Body)
+		f["commitRemembersFailure"] = leanBool(
+			strings.HasPrefix(ct, "{ if s.flushErr != nil { return nil, fmt.Errorf(") &&
+				strings.Contains(ct, "root, err := s.crdt.MakeRoot(ctx) if err != nil { s.flushErr = err return nil, fmt.Errorf(\"mast makeroot: %w\", err) }") &&
+				strings.Contains(ct, "err = s.root.Store(ctx, name, rootBytes) if err != nil { s.unstored = true return nil, fmt.Errorf(\"store: %w\", err) }") &&
+				strings.Contains(ct, "s.tombstoned = false s.unstored = false return &name, nil }") &&
+				strings.Count(ct, "s.unstored =") == 2 && strings.Count(ct, "s.flushErr =") == 1 &&
+				kvs.text(kvs.fn("DB.IsDirty").Body) == "{ return s.tombstoned || s.unstored || s.crdt.IsDirty() }")
+	}
 	roIf := kvs.ifWithCond(commit, "s.readonly")
 	f["commitGuardBeforeFlush"] = leanBool(roIf != nil && endsIn(roIf.Body, "return") && strings.Contains(kvs.text(roIf.Body), "ErrReadOnly") &&
 		roIf.Pos() < kvs.firstCallPos(commit, "s.crdt.MakeRoot") && kvs.firstCallPos(commit, "s.crdt.MakeRoot") != 0)
